@@ -1,6 +1,7 @@
 import TallyVerif.Driver.Util
 import TallyVerif.Driver.Classify
 import TallyVerif.Driver.Analyze
+import TallyVerif.Driver.Rules
 /-! `tvdrv`: one JSON object per line in, one canonical JSON object per line out. -/
 open Lean TallyVerif.Driver
 
@@ -8,6 +9,9 @@ def dispatch (j : Json) : Json :=
   match jstr j "op" with
   | "classify" => handleClassify j
   | "analyze" => handleAnalyze j
+  | "match" => handleMatch j
+  | "legacy" => handleLegacy j
+  | "transforms" => handleTransforms j
   | "ping" => obj [("pong", .bool true)]
   | op => obj [("err", .str s!"unknown op {op}")]
 
